@@ -48,6 +48,21 @@ CHECKS["C19"] = {
     "note": COMMON_NOTE + "sorted() modelled as List.mergeSort (stable), slicing as drop/take; tuple inputs are checked to batch in lock-step by the harness (they reuse the same slicing per member).",
     "technique": "Lean 4 proof (whole-domain decide +kernel, stability of mergeSort, list lemmas) + model/code correspondence check",
 }
+CHECKS["C11"] = {
+    "text": "Lean: the built index has one byte offset per '\\n'-delimited line (unterminated last line counts, final newline adds none), every offset is on a character boundary and starts its line; f[i] for positive and negative i, IndexError outside, RuntimeError when closed; iterables and slices select like a list (slice.indices modelled, bound proved); a caller-supplied offset index is honoured; every read returns the presented line whatever the handle's cursor is and changes nothing but the cursor, hence an iteration step yields line pos under any interleaving with random accesses and other iterations.",
+    "note": COMMON_NOTE + "One model for all eight variants (buffered / memory-mapped, plain / mutable / record while unmodified): TextIOWrapper(newline='\\n') and mmap.readline+decode are modelled library behaviour; UTF-8 sizes via Char.utf8Size; files are valid UTF-8; mmap variants are not run on empty files.",
+    "technique": "Lean 4 proof (cursor-independent presentation invariant, index/split correspondence) + model/code correspondence check",
+}
+CHECKS["C12"] = {
+    "text": "Lean: item assignment, deletion, insert, append, extend, pop, remove, reverse and += map the presented list to the result of the Python list operation, raise IndexError/ValueError exactly where a list does, set dirty on success and never touch the source content; iteration of the view yields the list; save writes exactly the lines each followed by the chosen ending; reopening what the default ending wrote gives the same list.",
+    "note": COMMON_NOTE + "MutableSequence mixins are written out from their collections.abc definitions; the harness additionally checks saved bytes, reopening in both flavours and the source file's bytes on disk.",
+    "technique": "Lean 4 proof (refinement of the _lines overlay to a Python list) + model/code correspondence check",
+}
+CHECKS["C13"] = {
+    "text": "Lean: csv writer (QUOTE_MINIMAL) followed by the csv reader state machine is the identity on field lists without line breaks (with terminator, with the trailing \\r a saved record file leaves, and bare), a saved row is a single line, the shared class-level StringIO is empty at position 0 after every save so each save returns exactly its own row; JSON glue under the stated json round-trip assumption. Record files = line files (C11/C12) with load per line.",
+    "note": COMMON_NOTE + "Modelled library behaviour (csv writer/reader, StringIO) is compared with the real modules on every generated row; typed fields (int/float/str), JSON values and whole record files (edit, save, reopen in both flavours) are exercised on the real code against the model's prediction 'round trip succeeds'. Assumed, not proved: json.loads(json.dumps(v))==v, int(str(i))==i, float(repr(x))==x.",
+    "technique": "Lean 4 proof (parser state invariant over written rows) + model/code correspondence check",
+}
 NOT_APPLICABLE = []
 NOTES = ("Checks are added as their models, theorems and correspondence harnesses are completed; properties not yet listed are "
          "work in progress (see DESIGN.md), not 'not applicable'.")
